@@ -975,6 +975,11 @@ class PredEval:
         env = {}
         for i, a in enumerate(args):
             env[i + 1] = a
+        res = self._run(b, env, depth)
+        self.memo[mk] = res
+        return res
+
+    def _run(self, b, env, depth):
         bb = 0
         steps = 0
         res = None
@@ -985,7 +990,7 @@ class PredEval:
             for s in blk["stmts"]:
                 if s["k"] != "assign":
                     continue
-                v = self._rv(b, s["rv"], env)
+                v = self._rv(b, s["rv"], env, depth)
                 if v is None:
                     ok = False
                     break
@@ -1005,7 +1010,7 @@ class PredEval:
                 bb = t["target"]
                 continue
             if k == "switch":
-                d = self._op(b, t["discr"], env)
+                d = self._op(b, t["discr"], env, depth)
                 if d is None or isinstance(d, tuple):
                     res = None
                     break
@@ -1017,7 +1022,7 @@ class PredEval:
                 continue
             if k == "call":
                 name = callee_name(t)
-                av = [self._op(b, a, env) for a in t["args"]]
+                av = [self._op(b, a, env, depth) for a in t["args"]]
                 r = None
                 if t.get("target") is None and ("panic" in name or "unwrap_failed" in name or "expect_failed" in name):
                     res = ("diverges", name)
@@ -1039,9 +1044,11 @@ class PredEval:
                 env[t["dest"]["l"]] = r
                 bb = t["target"]
                 continue
+            if k == "drop" and t.get("target") is not None:
+                bb = t["target"]
+                continue
             res = None
             break
-        self.memo[mk] = res
         return res
 
     def _std_call(self, name, av, depth):
@@ -1057,6 +1064,34 @@ class PredEval:
             return self.call(c[1], [("tuple", c[2])] + list(args), depth + 1)
         if not av or any(a is None for a in av):
             return None
+
+        def is_seq(v):
+            return isinstance(v, tuple) and v and v[0] in ("arr", "iter")
+        # constant tables: `TABLE.iter().find(|row| …)` and friends, evaluated row by row
+        if (name.endswith("[T]>::iter") or name.endswith("IntoIterator>::into_iter") or name.endswith("IntoIterator::into_iter")
+                or name.endswith("Iterator>::copied") or name.endswith("Iterator::copied") or name.endswith("Iterator>::cloned")
+                or name.endswith("Iterator::cloned")) and len(av) == 1 and is_seq(av[0]):
+            return ("iter", av[0][1])
+        short = name.rsplit("::", 1)[-1]
+        if ("Iterator" in name) and short in ("find", "any", "all", "position", "find_map") and len(av) == 2 and is_seq(av[0]):
+            for i, x in enumerate(av[0][1]):
+                r = call_clo(av[1], [x])
+                if r is None:
+                    return None
+                if short == "find" and r is True:
+                    return ("some", x)
+                if short == "position" and r is True:
+                    return ("some", i)
+                if short == "any" and r is True:
+                    return True
+                if short == "all" and r is False:
+                    return False
+                if short == "find_map":
+                    if not is_opt(r):
+                        return None
+                    if r[0] == "some":
+                        return r
+            return {"find": ("none",), "position": ("none",), "find_map": ("none",), "any": False, "all": True}[short]
         if name.endswith("Option::<T>::or_else") and is_opt(av[0]):
             return av[0] if av[0][0] == "some" else call_clo(av[1], [])
         if name.endswith("Option::<T>::or") and is_opt(av[0]) and is_opt(av[1]):
@@ -1089,7 +1124,22 @@ class PredEval:
             return av[0] < 0x80
         return None
 
-    def _op(self, b, op, env):
+    def _conv(self, j):
+        """factgen's structured constant (arrays / tuples of scalars) as an evaluated value."""
+        if isinstance(j, (bool, int)):
+            return j
+        if isinstance(j, dict):
+            if "cp" in j:
+                return j["cp"]
+            if "tuple" in j:
+                xs = [self._conv(x) for x in j["tuple"]]
+                return None if any(x is None for x in xs) else ("tuple", tuple(xs))
+            if "array" in j:
+                xs = [self._conv(x) for x in j["array"]]
+                return None if any(x is None for x in xs) else ("arr", tuple(xs))
+        return None
+
+    def _op(self, b, op, env, depth=0):
         if op["k"] == "const":
             if "fn" in op:
                 p_ = op["fn"].get("resolved") or op["fn"]["path"]
@@ -1104,6 +1154,8 @@ class PredEval:
                 return ("str", op["str"])
             if "array" in op:
                 return ("arr", tuple((x.get("cp") if isinstance(x, dict) else x) for x in op["array"]))
+            if "value" in op:
+                return self._conv(op["value"])
             if "promoted" in op:
                 pb = b.promoted_body(op["promoted"])
                 if pb is not None:
@@ -1124,11 +1176,17 @@ class PredEval:
                             while x.k in ("ref", "deref"):
                                 x = x.a[0]
                             if x.k != "const" or x.a[0][0] not in ("char", "int"):
-                                return None
+                                vals = None
+                                break
                             vals.append(ord(x.a[0][1]) if isinstance(x.a[0][1], str) else x.a[0][1])
-                        return ("arr", tuple(vals))
+                        if vals is not None:
+                            return ("arr", tuple(vals))
+                    if depth <= 8:
+                        return self._run(pb, {}, depth + 1)      # a promoted constant expression: evaluate its own body
             return None
-        p = op["place"]
+        return self._place(op["place"], env)
+
+    def _place(self, p, env):
         v = env.get(p["l"])
         for el in p["p"]:
             if el == "*":
@@ -1144,15 +1202,12 @@ class PredEval:
             return None
         return v
 
-    def _rv(self, b, rv, env):
+    def _rv(self, b, rv, env, depth=0):
         k = rv["k"]
         if k == "use":
-            return self._op(b, rv["op"], env)
+            return self._op(b, rv["op"], env, depth)
         if k == "ref":
-            p = rv["place"]
-            if any(el != "*" for el in p["p"]):
-                return None
-            return env.get(p["l"])
+            return self._place(rv["place"], env)
         if k == "binop":
             l, r = self._op(b, rv["l"], env), self._op(b, rv["r"], env)
             if l is None or r is None or isinstance(l, tuple) or isinstance(r, tuple):
@@ -1181,10 +1236,7 @@ class PredEval:
         if k == "cast":
             return self._op(b, rv["op"], env)
         if k == "discr":
-            p = rv["place"]
-            v = env.get(p["l"])
-            if any(el != "*" for el in p["p"]):
-                return None
+            v = self._place(rv["place"], env)
             if isinstance(v, tuple) and v and v[0] in ("some", "none"):
                 return 1 if v[0] == "some" else 0
             return None
@@ -1194,6 +1246,8 @@ class PredEval:
                 return None
             if rv["agg"] == "tuple":
                 return ("tuple", tuple(ops))
+            if rv["agg"] == "array":
+                return ("arr", tuple(ops))
             if rv["agg"] == "adt" and rv["adt"].endswith("option::Option"):
                 return ("some", ops[0]) if rv["variant"] == "Some" else ("none",)
             if rv["agg"] == "closure":
